@@ -26,11 +26,51 @@ func (fg *fileGen) renderEntity(e *element) []string {
 		opts = append(opts, fmt.Sprintf("baseUrlPath = %q", fg.pkg.dir+"/"+snake(name)+"_x"))
 		g.feat("entity_base_url")
 	}
-	if r.chance(30) {
+	if e.rich {
+		// block form of the query options
+		g.xfeat(XEntityRich)
+		opts = append(opts, "query {")
+		if r.chance(50) {
+			opts = append(opts, "  eventsInGet = "+r.pick([]string{"true", "true", "false"}))
+			g.feat("entity_query_events_in_get")
+		}
+		f := g.distinct(e.opts, r.between(1, len(e.opts)))
+		q := make([]string, len(f))
+		for i := range f {
+			q[i] = fmt.Sprintf("%q", f[i])
+		}
+		opts = append(opts, "  defaultStatusFilter = ["+strings.Join(q, ", ")+"]")
+		opts = append(opts, "}")
+		g.feat("entity_default_status_filter")
+		g.feat("entity_query_block")
+		if len(f) >= 3 {
+			g.feat("entity_default_status_filter_many")
+		}
+	}
+	if len(e.cmds) > 0 && !e.rich {
+		// query options and command blocks together
+		if r.chance(50) {
+			opts = append(opts, "query.eventsInGet = true")
+			g.feat("entity_query_events_in_get")
+		}
+		f := g.distinct(e.opts, r.between(1, 2))
+		q := make([]string, len(f))
+		for i := range f {
+			q[i] = fmt.Sprintf("%q", f[i])
+		}
+		if r.chance(50) {
+			opts = append(opts, "query.defaultStatusFilter = ["+strings.Join(q, ", ")+"]")
+		} else {
+			opts = append(opts, "query {", "  defaultStatusFilter = ["+strings.Join(q, ", ")+"]", "}")
+			g.feat("entity_query_block")
+		}
+		g.feat("entity_default_status_filter")
+	}
+	if !e.rich && len(e.cmds) == 0 && r.chance(30) {
 		opts = append(opts, "query.eventsInGet = true")
 		g.feat("entity_query_events_in_get")
 	}
-	if r.chance(35) {
+	if !e.rich && len(e.cmds) == 0 && r.chance(35) {
 		n := r.between(1, 2)
 		f := g.distinct(e.opts, n)
 		q := make([]string, len(f))
@@ -75,7 +115,54 @@ func (fg *fileGen) renderEntity(e *element) []string {
 		}
 		keys = append(keys, "}")
 	}
-	if r.chance(55) {
+	if e.rich {
+		// required and optional keys of every key format
+		formats := g.distinct([]string{"key:id62", "key:uuid", "key:custom", "key:informal", "key"}, r.between(3, 5))
+		markers := g.distinct([]string{"", "! ", "? "}, 3)
+		for i, typ := range formats {
+			kn := g.fieldName(names)
+			marker := markers[i%3]
+			var body []string
+			if r.chance(20) {
+				body = append(body, "| "+g.desc())
+			}
+			if typ == "key:custom" {
+				body = append(body, fmt.Sprintf("format.custom.pattern = %q", r.pick(patterns)))
+			}
+			switch x := r.intn(100); {
+			case x < 35:
+				body = append(body, "foreign = "+c.entityRef())
+				g.feat("entity_foreign_key")
+			case x < 50:
+				body = append(body, fmt.Sprintf("tenant = %q", r.pick(tenantWords)))
+				g.feat("entity_tenant_key")
+			}
+			if typ != "key:informal" && r.chance(30) { // L10
+				body = append(body, "listRules.filtering.filterable = true")
+			}
+			if len(body) == 0 {
+				keys = append(keys, "key "+kn+" "+marker+typ)
+			} else {
+				keys = append(keys, "key "+kn+" "+marker+typ+" {")
+				keys = append(keys, indent(body)...)
+				keys = append(keys, "}")
+			}
+			fmtName := "none"
+			if typ != "key" {
+				fmtName = strings.TrimPrefix(typ, "key:")
+			}
+			switch marker {
+			case "! ":
+				g.feat("entity_key_" + fmtName + "_required")
+			case "? ":
+				g.feat("entity_key_" + fmtName + "_optional")
+			default:
+				g.feat("entity_key_" + fmtName + "_plain")
+			}
+		}
+		g.feat("entity_keys_many_formats")
+	}
+	if !e.rich && r.chance(55) {
 		kn := g.fieldName(names)
 		keyNames = append(keyNames, kn)
 		typ := r.pick([]string{"key:id62", "key:uuid"})
@@ -91,7 +178,7 @@ func (fg *fileGen) renderEntity(e *element) []string {
 		keys = append(keys, "}")
 		g.feat("entity_tenant_key")
 	}
-	if r.chance(45) {
+	if !e.rich && r.chance(45) {
 		kn := g.fieldName(names)
 		marker := r.pick([]string{"", "? ", "! "})
 		typ := r.pick([]string{"key:id62", "key:uuid", "key"})
@@ -103,7 +190,7 @@ func (fg *fileGen) renderEntity(e *element) []string {
 		keys = append(keys, "}")
 		g.feat("entity_foreign_key")
 	}
-	if r.chance(35) {
+	if !e.rich && r.chance(35) {
 		kn := g.fieldName(names)
 		switch r.intn(3) {
 		case 0:
@@ -124,6 +211,9 @@ func (fg *fileGen) renderEntity(e *element) []string {
 	if g.large {
 		nData = r.between(2, 5)
 	}
+	if (e.rich || len(e.cmds) > 0) && nData > 2 {
+		nData = 2 // the exotic parts replace data fields
+	}
 	data := c.properties("data", nData, 0, names, true)
 
 	// ---- events ----
@@ -131,13 +221,65 @@ func (fg *fileGen) renderEntity(e *element) []string {
 	if g.large {
 		nEvents = r.between(2, 4)
 	}
+	if e.rich && nEvents < 2 {
+		nEvents = 2
+	}
+	if len(e.cmds) > 0 && nEvents > 2 {
+		nEvents = 2
+	}
+	// rich: every nested schema is used by an event
+	var useNested []*typeInfo
+	if e.rich {
+		for _, ne := range e.nested {
+			for _, t := range fg.planned {
+				if t.name == ne.name && t.owner == ne.name {
+					useNested = append(useNested, t)
+				}
+			}
+		}
+	}
 	var events []string
-	for _, en := range g.distinct(eventWords, nEvents) {
+	for ei, en := range g.distinct(eventWords, nEvents) {
 		events = append(events, "event "+en+" {")
 		events = append(events, indent(g.descLines("entity_event_desc", 30))...)
 		nf := r.between(0, 2)
+		enames := newFieldNames()
+		if e.rich {
+			for ni, t := range useNested {
+				if ni%nEvents != ei && !r.chance(25) {
+					continue
+				}
+				var ft ftype
+				switch t.kind {
+				case kEnum:
+					ft = ftype{typ: "enum:" + fg.refText(t), hasExt: true, hasV: true, anchorsV: true, canOptional: true}
+					g.feat("entity_event_uses_nested_enum")
+				case kOneof:
+					ft = ftype{typ: "oneof:" + fg.refText(t), hasExt: true, canOptional: true}
+					g.feat("entity_event_uses_nested_oneof")
+				default:
+					ft = ftype{typ: "object:" + fg.refText(t), hasExt: true, canOptional: true}
+					g.feat("entity_event_uses_nested_object")
+				}
+				switch x := r.intn(100); {
+				case x < 20:
+					ft.typ, ft.canOptional = "array:"+ft.typ, false
+				case x < 30:
+					ft.typ, ft.canOptional = "map:"+ft.typ, false
+					ft.needsV = ft.hasV
+					ft.hasV, ft.anchorsV, ft.hasExt = false, false, false
+				}
+				events = append(events, indent(c.renderProperty("field", g.fieldName(enames), ft, true))...)
+			}
+			if nf > 1 {
+				nf = 1
+			}
+		}
+		if len(e.cmds) > 0 && nf > 1 {
+			nf = 1
+		}
 		if nf > 0 {
-			events = append(events, indent(c.properties("field", nf, 1, newFieldNames(), true))...)
+			events = append(events, indent(c.properties("field", nf, 1, enames, true))...)
 		}
 		events = append(events, "}", "")
 	}
@@ -164,22 +306,60 @@ func (fg *fileGen) renderEntity(e *element) []string {
 
 	// ---- summaries ----
 	var sums []string
-	if r.chance(50) {
+	sumFields := func() int {
+		if e.rich {
+			return r.between(1, 2)
+		}
+		return r.between(1, 3)
+	}
+	if e.rich || (len(e.cmds) == 0 && r.chance(50)) {
 		sums = append(sums, "summary {")
-		sums = append(sums, indent(c.properties("field", r.between(1, 3), 1, newFieldNames(), true))...)
+		sums = append(sums, indent(c.properties("field", sumFields(), 1, newFieldNames(), true))...)
 		sums = append(sums, "}", "")
 		g.feat("entity_summary")
 	}
 	for _, s := range e.sums {
 		sums = append(sums, "summary "+s+" {")
-		sums = append(sums, indent(c.properties("field", r.between(1, 3), 1, newFieldNames(), true))...)
+		sums = append(sums, indent(c.properties("field", sumFields(), 1, newFieldNames(), true))...)
 		sums = append(sums, "}", "")
 		g.feat("entity_summary_named")
+	}
+	if e.rich {
+		g.feat(fmt.Sprintf("entity_summaries_%d", 1+len(e.sums)))
 	}
 
 	// ---- commands ----
 	var cmds []string
-	if r.chance(35) {
+	for _, cn := range e.cmds {
+		head := "command {"
+		if cn != "" {
+			head = "command " + cn + " {"
+			g.feat("entity_command_named")
+		} else {
+			g.feat("entity_command_default_name")
+		}
+		cmds = append(cmds, head)
+		cmds = append(cmds, indent(g.descLines("entity_command_desc_ignored", 25))...)
+		if cn != "" || r.chance(40) {
+			cmds = append(cmds, fmt.Sprintf("  basePath = %q", strings.ToLower(strings.TrimSuffix(cn, "Command"))+"cmd"))
+		}
+		nm := 1 + g.weighted([]int{70, 30})
+		for i := 0; i < nm; i++ {
+			fg.leanMethods = true
+			cmds = append(cmds, indent(fg.renderMethod(c, keyNames[:1]))...)
+			fg.leanMethods = false
+		}
+		cmds = append(cmds, "}", "")
+		g.feat("entity_command")
+	}
+	if len(e.cmds) > 0 {
+		g.feat(fmt.Sprintf("entity_command_blocks_%d", len(e.cmds)))
+		g.feat("entity_query_options_with_commands")
+		if len(e.cmds) >= 2 {
+			g.xfeat(XMultiCommand)
+		}
+	}
+	if len(e.cmds) == 0 && r.chance(35) {
 		cmds = append(cmds, "command {")
 		if r.chance(40) {
 			cmds = append(cmds, fmt.Sprintf("  basePath = %q", "cmd"))
@@ -312,6 +492,9 @@ func (fg *fileGen) renderMethod(c *fctx, pathKeys []string) []string {
 		segs = append(segs, ":"+k)
 	}
 	nParams := g.weighted([]int{35, 40, 25})
+	if fg.leanMethods && nParams > 1 {
+		nParams = 1
+	}
 	for i := 0; i < nParams; i++ {
 		pn := g.fieldName(names)
 		switch r.intn(4) {
@@ -350,6 +533,9 @@ func (fg *fileGen) renderMethod(c *fctx, pathKeys []string) []string {
 		g.feat("service_paged_list")
 	}
 	nReq := r.between(0, 2)
+	if fg.leanMethods && nReq > 1 {
+		nReq = 1
+	}
 	if nReq > 0 {
 		req = append(req, c.properties("field", nReq, 1, names, true)...)
 	}
@@ -384,6 +570,9 @@ func (fg *fileGen) renderMethod(c *fctx, pathKeys []string) []string {
 			resp = append(resp, "field page object:j5.list.v1.PageResponse")
 		}
 		nResp := r.between(0, 2)
+		if fg.leanMethods && nResp > 1 {
+			nResp = 1
+		}
 		if nResp > 0 {
 			resp = append(resp, c.properties("field", nResp, 1, rnames, true)...)
 		}
